@@ -30,10 +30,11 @@ fn ss_protos() -> Vec<Proto> {
 }
 
 /// One client session talking to one server codec: `ops` request/reply exchanges. Returns the first deviation.
-fn udp_exchanges(cred: &real::Cred, thread: usize, ops: usize, seed: u64) -> Result<usize, String> {
+/// `sudp` is the server's one datagram codec, shared by all sessions as in the running server; `cred` is this
+/// session's client credential (its own user where the server has a user table).
+fn udp_exchanges(cred: &real::Cred, sudp: &dyn real::ServerUdpDyn, thread: usize, ops: usize, seed: u64) -> Result<usize, String> {
     real::set_clock(Some(T0));
     let cctx = real::ClientUdpCtx::new(cred).map_err(|e| format!("harness: client ctx: {}", e))?;
-    let sudp = real::server_udp(cred).map_err(|e| format!("harness: server codec: {}", e))?;
     let mut cc = cctx.codec();
     let target = to_address(&Addr::V4([10, 0, thread as u8, 1], 1000 + thread as u16)).unwrap();
     for k in 0..ops {
@@ -77,7 +78,7 @@ impl SubCheck for UdpCodecStress {
     }
     fn strategy(&self, tier: Tier) -> BoxedStrategy<StressCase> {
         let ops = if tier == Tier::Thorough { 3000u16 } else { 600 };
-        (proptest::sample::select(ss_protos()), 0u8..3, 2u8..=16, 50u16..=ops, any::<u64>()).prop_map(|(proto, n_users, threads, ops, seed)| StressCase { proto, n_users, threads, ops, seed }).boxed()
+        (prop_oneof![1 => (proptest::sample::select(ss_protos()), 0u8..5), 1 => (proptest::sample::select(vec![Proto::Ss22(C22::Aes128), Proto::Ss22(C22::Aes256)]), 2u8..6)], 2u8..=16, 50u16..=ops, any::<u64>()).prop_map(|((proto, n_users), threads, ops, seed)| (proto, n_users, threads, ops, seed)).prop_map(|(proto, n_users, threads, ops, seed)| StressCase { proto, n_users, threads, ops, seed }).boxed()
     }
     fn workers(&self) -> usize {
         1
@@ -87,11 +88,18 @@ impl SubCheck for UdpCodecStress {
     }
     fn exec(&self, c: &StressCase) -> Outcome {
         let mut out = Outcome::new();
-        let cred = gen::make_cred(c.proto, "stress password", c.seed, c.n_users as usize, 1);
+        // one server (one user table, one datagram codec); every session is its own client, of its own user where
+        // the server has users
+        let creds: Vec<real::Cred> = (0..c.threads as usize).map(|t| gen::make_cred(c.proto, "stress password", c.seed, c.n_users as usize, t)).collect();
         out.label(format!("proto:{}", c.proto.short()));
-        // alone first: the same exchanges, one thread at a time
-        for t in 0..c.threads.min(2) as usize {
-            if let Err(e) = udp_exchanges(&cred, t, (c.ops as usize).min(60), c.seed) {
+        if creds[0].users.len() >= 2 {
+            out.label("sessions-of-different-users");
+        }
+        let Ok(sudp) = real::server_udp(&creds[0]) else { return out };
+        let sudp: &dyn real::ServerUdpDyn = sudp.as_ref();
+        // alone first: the same exchanges, one session at a time
+        for t in 0..c.threads.min(3) as usize {
+            if let Err(e) = udp_exchanges(&creds[t], sudp, t, (c.ops as usize).min(60), c.seed) {
                 if e.starts_with("harness:") {
                     return out;
                 }
@@ -105,11 +113,11 @@ impl SubCheck for UdpCodecStress {
         std::thread::scope(|s| {
             let hs: Vec<_> = (0..c.threads as usize)
                 .map(|t| {
-                    let (cred, barrier) = (&cred, &barrier);
+                    let (cred, barrier) = (&creds[t], &barrier);
                     s.spawn(move || {
                         barrier.wait();
                         let t0 = Instant::now();
-                        let r = udp_exchanges(cred, t, c.ops as usize, c.seed);
+                        let r = udp_exchanges(cred, sudp, t, c.ops as usize, c.seed);
                         (r, t0, Instant::now())
                     })
                 })
@@ -191,7 +199,7 @@ impl SubCheck for TcpSharedContext {
     }
     fn strategy(&self, tier: Tier) -> BoxedStrategy<StressCase> {
         let ops = if tier == Tier::Thorough { 1500u16 } else { 300 };
-        (proptest::sample::select(Proto::all()), 0u8..3, 2u8..=16, 30u16..=ops, any::<u64>()).prop_map(|(proto, n_users, threads, ops, seed)| StressCase { proto, n_users, threads, ops, seed }).boxed()
+        (prop_oneof![1 => (proptest::sample::select(Proto::all()), 0u8..5), 1 => (proptest::sample::select(vec![Proto::Ss22(C22::Aes128), Proto::Ss22(C22::Aes256), Proto::Vmess(3)]), 2u8..6)], 2u8..=16, 30u16..=ops, any::<u64>()).prop_map(|((proto, n_users), threads, ops, seed)| (proto, n_users, threads, ops, seed)).prop_map(|(proto, n_users, threads, ops, seed)| StressCase { proto, n_users, threads, ops, seed }).boxed()
     }
     fn workers(&self) -> usize {
         1
@@ -201,19 +209,28 @@ impl SubCheck for TcpSharedContext {
     }
     fn exec(&self, c: &StressCase) -> Outcome {
         let mut out = Outcome::new();
-        let cred = gen::make_cred(c.proto, "shared context password", c.seed, c.n_users as usize, 1);
+        let creds: Vec<real::Cred> = (0..c.threads as usize).map(|t| gen::make_cred(c.proto, "shared context password", c.seed, c.n_users as usize, t)).collect();
         out.label(format!("proto:{}", c.proto.short()));
-        let (Ok(cctx), Ok(sctx)) = (ClientCtx::new(&cred), ServerCtx::new(&cred)) else { return out };
-        if tcp_round_trips(&cctx, &sctx, 0, (c.ops as usize).min(40), c.seed ^ 1).is_err() {
-            out.label("fails-alone");
-            return out;
+        if creds[0].users.len() >= 2 {
+            out.label("flows-of-different-users");
+        }
+        let Ok(sctx) = ServerCtx::new(&creds[0]) else { return out };
+        let cctxs: Vec<ClientCtx> = match creds.iter().map(ClientCtx::new).collect::<Result<Vec<_>, _>>() {
+            Ok(v) => v,
+            Err(_) => return out,
+        };
+        for t in 0..c.threads.min(3) as usize {
+            if tcp_round_trips(&cctxs[t], &sctx, t, (c.ops as usize).min(40), c.seed ^ 1).is_err() {
+                out.label("fails-alone");
+                return out;
+            }
         }
         let barrier = Barrier::new(c.threads as usize);
         let mut results: Vec<(Result<usize, String>, Instant, Instant)> = vec![];
         std::thread::scope(|s| {
             let hs: Vec<_> = (0..c.threads as usize)
                 .map(|t| {
-                    let (cctx, sctx, barrier) = (&cctx, &sctx, &barrier);
+                    let (cctx, sctx, barrier) = (&cctxs[t], &sctx, &barrier);
                     s.spawn(move || {
                         barrier.wait();
                         let t0 = Instant::now();
@@ -346,9 +363,8 @@ pub fn run(ctx: &mut PropCtx) {
         "UDP keys are address-stable leaked allocations, as in the binaries (the cipher cache is keyed by key address)".into(),
     ];
     let t = ctx.tier;
-    let _ = C22::ALL;
-    rt::run_sub(ctx, &UdpCodecStress, t.pick(24, 200));
-    rt::run_sub(ctx, &TcpSharedContext, t.pick(24, 200));
+    rt::run_sub(ctx, &UdpCodecStress, t.pick(40, 300));
+    rt::run_sub(ctx, &TcpSharedContext, t.pick(40, 300));
     rt::run_sub(ctx, &crate::props::c10::ConcurrentReplay, t.pick(60, 1500));
     rt::run_sub(ctx, &ManyFlows, t.pick(10, 120));
 }
